@@ -85,38 +85,63 @@ def _cvc5(smt2: str, timeout_s: float, names: list[str]) -> tuple[str, dict[str,
         os.unlink(path)
 
 
+def _mk_solver(kind: str, timeout_s: float) -> Any:
+    if kind == "z3":
+        s = z3.Solver()
+    elif kind == "z3-arith2":
+        s = z3.Solver()
+        s.set("arith.solver", 2)
+    elif kind == "z3-qflia":
+        s = z3.Tactic("qflia").solver()
+    else:
+        raise ValueError(kind)
+    s.set("timeout", max(1, int(timeout_s * 1000)))
+    return s
+
+
+PORTFOLIO = (("z3", 0.15), ("z3-arith2", 0.35), ("z3-qflia", 0.2), ("z3", 0.3))
+
+
 def discharge(vc: VC, base: list[Any], timeout_s: float, use_cvc5: bool = True) -> None:
+    """Refute base and pc and not cond  with a small solver portfolio (z3's new and old arithmetic cores, the
+    qflia tactic, then cvc5).  `unknown` from every member leaves the VC undecided -- never a violation."""
     t0 = time.time()
     if z3.is_true(vc.cond):
         vc.status, vc.backend = "proved", "trivial"
         return
-    s = z3.Solver()
-    s.set("timeout", int(timeout_s * 1000))
-    for t in base:
-        s.add(t)
-    for t in vc.pc:
-        s.add(t)
-    s.add(z3.Not(vc.cond))
-    r = s.check()
-    vc.backend = "z3"
-    if r == z3.unsat:
-        vc.status = "proved"
-    elif r == z3.sat:
-        vc.status = "failed"
-        vc.model = s.model()
-    else:
-        vc.status = "unknown"
-        vc.detail = s.reason_unknown()
-        if use_cvc5:
-            try:
-                r2, _ = _cvc5(s.to_smt2(), timeout_s, [])
-            except Exception:  # noqa: BLE001
-                r2 = "unknown"
-            if r2 == "unsat":
-                vc.status, vc.backend = "proved", "cvc5"
-            elif r2 == "sat":
-                # no model transfer: retry z3 with a different tactic for a model, else report without input
-                vc.status, vc.backend = "failed", "cvc5"
+    goal = list(base) + list(vc.pc) + [z3.Not(vc.cond)]
+    vc.status = "unknown"
+    last = None
+    for kind, frac in PORTFOLIO:
+        try:
+            s = _mk_solver(kind, timeout_s * frac)
+            for t in goal:
+                s.add(t)
+            r = s.check()
+        except z3.Z3Exception as ex:
+            vc.detail = f"{kind}: {ex}"
+            continue
+        last = s
+        if r == z3.unsat:
+            vc.status, vc.backend = "proved", kind
+            break
+        if r == z3.sat:
+            vc.status, vc.backend = "failed", kind
+            vc.model = s.model()
+            break
+        vc.detail = f"{kind}: {s.reason_unknown()}"
+    if vc.status == "unknown" and use_cvc5 and last is not None:
+        try:
+            plain = z3.Solver()
+            for t in goal:
+                plain.add(t)
+            r2, _ = _cvc5(plain.to_smt2(), timeout_s * 0.5, [])
+        except Exception:  # noqa: BLE001
+            r2 = "unknown"
+        if r2 == "unsat":
+            vc.status, vc.backend = "proved", "cvc5"
+        elif r2 == "sat":
+            vc.status, vc.backend = "failed", "cvc5"
     vc.time_s = time.time() - t0
 
 
